@@ -95,6 +95,8 @@ BUILDS = {
         rustflags="-Zsanitizer=thread", zflags=("-Zbuild-std",),
     ),
     "nohooks": Build("nohooks", hooks=False),
+    # the crate's `std` feature instead of `alloc` (std-only code paths)
+    "checked-std": Build("checked-std", features=["std", "x25519", "p256", "p384", "p521"]),
 }
 
 
